@@ -87,28 +87,26 @@ Proof. simpl. destruct v; try (left; apply (lt_inf _ ord); discriminate). right.
 Lemma le_sup v : cmp_holds CLe v SSup.
 Proof. simpl. destruct v; try (left; apply (lt_sup _ ord); discriminate). right. reflexivity. Qed.
 
+Lemma sup_ge v : cmp_holds CGe SSup v.
+Proof. pose proof (le_sup v) as X. simpl in *. destruct X as [X|X]; [left; exact X | right; congruence]. Qed.
+Lemma inf_ge v : cmp_holds CGe v SInf.
+Proof. pose proof (inf_le v) as X. simpl in *. destruct X as [X|X]; [left; exact X | right; congruence]. Qed.
+
+(* robust w.r.t. the shape of the generated table: plain case analysis on operator and symbol *)
 Theorem drop_left_guard_proof : forall s g v, guard_ok s true (drop_left_guard g) v <-> guard_ok s true g v.
 Proof.
-  intros s g v. destruct g as [[o t]|]; simpl; [|tauto].
-  destruct t; simpl; try tauto.
-  destruct (cmp_eqb o CLe && sym_eqb s0 SInf) eqn:E1; simpl.
-  - apply andb_true_iff in E1. destruct E1 as [E1 E2]. destruct o; try discriminate. destruct s0; try discriminate.
-    simpl. split; [intros _|tauto]. apply inf_le.
-  - destruct (cmp_eqb o CGe && sym_eqb s0 SSup) eqn:E2; simpl; [|tauto].
-    apply andb_true_iff in E2. destruct E2 as [E2 E3]. destruct o; try discriminate. destruct s0; try discriminate.
-    split; [intros _|tauto]. pose proof (le_sup v) as X. simpl in *. destruct X as [X|X]; [left; exact X | right; congruence].
+  intros s g v. destruct g as [[o t]|]; [|simpl; tauto].
+  destruct t as [x|c|u t|b l r|l r|n args e|alts]; try (simpl; tauto).
+  destruct o; destruct c; simpl; try tauto;
+    (split; [intros _; first [apply inf_le | apply sup_ge] | intros _; exact I]).
 Qed.
 
 Theorem drop_right_guard_proof : forall s g v, guard_ok s false (drop_right_guard g) v <-> guard_ok s false g v.
 Proof.
-  intros s g v. destruct g as [[o t]|]; simpl; [|tauto].
-  destruct t; simpl; try tauto.
-  destruct (cmp_eqb o CLe && sym_eqb s0 SSup) eqn:E1; simpl.
-  - apply andb_true_iff in E1. destruct E1 as [E1 E2]. destruct o; try discriminate. destruct s0; try discriminate.
-    simpl. split; [intros _|tauto]. apply le_sup.
-  - destruct (cmp_eqb o CGe && sym_eqb s0 SInf) eqn:E2; simpl; [|tauto].
-    apply andb_true_iff in E2. destruct E2 as [E2 E3]. destruct o; try discriminate. destruct s0; try discriminate.
-    split; [intros _|tauto]. pose proof (inf_le v) as X. simpl in *. destruct X as [X|X]; [left; exact X | right; congruence].
+  intros s g v. destruct g as [[o t]|]; [|simpl; tauto].
+  destruct t as [x|c|u t|b l r|l r|n args e|alts]; try (simpl; tauto).
+  destruct o; destruct c; simpl; try tauto;
+    (split; [intros _; first [apply le_sup | apply inf_ge] | intros _; exact I]).
 Qed.
 
 (* the whole guard normalisation of remove_unecessary_bounds keeps the truth value of the aggregate *)
